@@ -152,6 +152,8 @@ pub struct World {
     pub alive: std::collections::BTreeSet<u32>,
     /// children without drop glue and the address of their latest poll (0: not polled yet)
     pub plain: std::collections::BTreeMap<u32, usize>,
+    /// outputs without drop glue: handed out to the caller?
+    pub plain_out: std::collections::BTreeMap<(i64, i64), bool>,
     pub produced: i64,
     pub mute: bool,
     /// children the environment has completed (oneshot-like): they answer Ready at their next poll
@@ -200,6 +202,7 @@ pub fn reset_world(hooklog: bool) {
         next_tag: 0x9E37_79B9_7F4A_7C15,
         alive: Default::default(),
         plain: Default::default(),
+        plain_out: Default::default(),
         produced: 0,
         mute: false,
         ready: Default::default(),
@@ -433,6 +436,44 @@ impl Token {
     pub fn valid(&self) -> bool {
         let _s = Suspend::new();
         self.live == LIVE && with(|w| w.tokens.get(&(self.c, self.k)).map(|x| x.0 == self.tag).unwrap_or(false))
+    }
+}
+/// An output value without drop glue (`needs_drop::<PTok>()` is false).  Nobody can be observed destroying it, so the
+/// harness accounts for it: handed out -> dropped by the caller at the end; still owned by the crate -> gone with the
+/// collection.  `plain_out[(c,k)]` = true once it was handed out.
+#[derive(Clone, Copy)]
+#[repr(C)]
+pub struct PTok {
+    pub c: i64,
+    pub k: i64,
+    tag: u64,
+}
+impl PTok {
+    pub fn new(c: i64, k: i64) -> PTok {
+        let t = Token::new(c, k);
+        let p = PTok { c, k, tag: t.tag };
+        std::mem::forget(t);
+        let _s = Suspend::new();
+        with(|w| w.plain_out.insert((c, k), false));
+        p
+    }
+    pub fn valid(&self) -> bool {
+        let _s = Suspend::new();
+        with(|w| w.tokens.get(&(self.c, self.k)).map(|x| x.0 == self.tag).unwrap_or(false))
+    }
+}
+/// the plain outputs in the given state are destroyed now (handed = true: by the caller; false: with the collection)
+pub fn plain_outputs_gone(handed: bool) {
+    let _s = Suspend::new();
+    let gone: Vec<(i64, i64)> = with(|w| {
+        let g: Vec<(i64, i64)> = w.plain_out.iter().filter(|(_, h)| **h == handed).map(|(k, _)| *k).collect();
+        for k in &g {
+            w.plain_out.remove(k);
+        }
+        g
+    });
+    for (c, k) in gone {
+        ev(format!(r#"{{"e":"odrop","c":{},"k":{}}}"#, c, k));
     }
 }
 impl Drop for Token {
